@@ -119,6 +119,17 @@ def build_world(scen_seed):
             right = np.array([[x, -0.0 if j == len(xs) - 1 else -1.5 - 0.0001 * j] for j, x in enumerate(xs)])
             left = np.array([[x, 1.5 + 0.0001 * j] for j, x in enumerate(xs)])
             sc.add_objects(Lanelet(left, (left + right) / 2.0, right, 82))
+            # a car park: one vehicle whose box was measured in whole metres held as numpy integers, then more than 128
+            # vehicles' worth of distinct box sizes, and (obstacle 711 above, written after the static ones) the same
+            # size as floats: equal numbers, different texts ("2" / "2.0"), far apart in one file
+            park = InitialState(time_step=0, position=np.array([5.0, 40.0]), orientation=0.0, velocity=0.0,
+                                acceleration=0.0, yaw_rate=0.0, slip_angle=0.0)
+            sc.add_objects(StaticObstacle(730, ObstacleType.PARKED_VEHICLE, Rectangle(np.int64(2), np.int64(1)), park))
+            for j in range(70):
+                pj = InitialState(time_step=0, position=np.array([8.0 + 3 * j, 40.0]), orientation=0.0, velocity=0.0,
+                                  acceleration=0.0, yaw_rate=0.0, slip_angle=0.0)
+                sc.add_objects(StaticObstacle(731 + j, ObstacleType.PARKED_VEHICLE,
+                                              Rectangle(2.01 + 0.01 * j, 1.01 + 0.01 * j), pj))
         # the same for lanelet boundaries: one lanelet whose vertex values all scenarios of the case share, one of its own
         sc.add_objects(_fine_lanelet(80, shared_xs, 60 + math.sqrt(2), 63 + math.e))
         sc.add_objects(_fine_lanelet(81, [rng.uniform(0, 30) for _ in range(2)], 70 + rng.random(), 73 + rng.random()))
